@@ -237,7 +237,22 @@ def replay(rec, PS, ss, history, init_value):
     seq, twin = PS(first), PS(ss.SimpleSequenceStart(init_value) if init_value else ss.SequenceStart.zero())
     sv, n = first.value, 0
     outs = []
+    # half-way through, every other history is forked: a snapshot of the running sequencer (copy.deepcopy, or a pickle
+    # round trip) is a third peer that must go on exactly like the original
+    fork, fork_at, fork_from = None, (len(history) // 2 if len(history) >= 4 and len(history) % 2 == 0 else -1), 0
     for i, op in enumerate(history):
+        if i == fork_at:
+            try:
+                if len(history) % 4 == 0:
+                    fork, how = copy.deepcopy(seq), "copy.deepcopy"
+                else:
+                    import pickle
+
+                    fork, how = pickle.loads(pickle.dumps(seq)), "pickle"
+            except Exception as ex:
+                rec.seen("snapshots-not-supported", "%s: %s" % (type(ex).__name__, str(ex)[:60]))
+                fork = None
+            fork_from = len(outs)
         if op[0] == "next":
             try:
                 got = seq.next_sequence()
@@ -258,6 +273,22 @@ def replay(rec, PS, ss, history, init_value):
             rec.seen("start_kinds", type(st).__name__)
             seq.set_sequence_start(st)
             sv = st.value
+    if fork is not None:
+        fouts = []
+        try:
+            for op in history[fork_at:]:
+                if op[0] == "next":
+                    fouts.append(fork.next_sequence())
+                else:
+                    fork.set_sequence_start(make_start(ss, op[1], op[2]))
+        except Exception as ex:
+            fouts.append(repr(ex))
+        rec.count("snapshot-peers-compared")
+        rec.seen("snapshot-kinds", how)
+        if fouts != outs[fork_from:]:
+            rec.violation("snapshot-diverges", "a %s snapshot taken after %d operations (%d requests) goes on with %r, the original with %r" % (how, fork_at, fork_from, fouts[:12], outs[fork_from:][:12]),
+                          {"history": history, "init": init_value, "forked_at": fork_at})
+            return
     # twin driven afterwards in one batch
     touts = []
     for op in history:
